@@ -27,8 +27,10 @@ structure TextOpts where
   byColumn : Bool
 deriving DecidableEq, Repr
 
-/-- the outcomes of the classification heuristics on one page, and the white space
-`extractPreserveLayout` pads with -/
+/-- the outcomes of the classification heuristics on one page, and the two float64 values
+`extractPreserveLayout` measures its padding with: `cw` = `charWidth`, `lh0` = `charWidth * 1.2`
+(the clamps that bound the padding - at most 100 newlines per gap, target column at most 200 -
+are part of the model: `preserveLayoutGo`) -/
 structure Heur where
   gaps : List Gap
   minCW : Rat
@@ -39,7 +41,8 @@ structure Heur where
   preserve : List Frag → Bool
   rtl : Bool
   brkOf : List (List Frag) → List (List Frag) → List Frag → List (List Frag) → Bool
-  pad : List Frag → Frag → Nat × Nat
+  cw : Rat
+  lh0 : Rat
 
 /-- `isCharacterLevel`: at least 10 fragments, more than 60 % of them at most one byte long
 after trimming -/
@@ -66,7 +69,7 @@ def Heur.readingOrder (hz : Heur) (fs : List Frag) : ReadingOrder :=
 /-- the text of one page with fragments -/
 def pageText (hz : Heur) (o : TextOpts) (widthZero : Bool) (fs : List Frag) : Str :=
   textDispatch o (isCharacterLevel fs) (detectMultiColumn widthZero fs (hz.readingOrder fs).columnCount)
-    (preserveLayout hz.pad fs)
+    (preserveLayoutGo hz.cw hz.lh0 fs)
     (extractWithParagraphs hz.gaps hz.minCW hz.minW hz.isSpan hz.keep hz.tolOf hz.preserve hz.rtl hz.brkOf fs)
     (extractByColumn hz.gaps hz.minCW hz.minW hz.isSpan hz.keep hz.tolOf hz.preserve hz.rtl fs)
     (assembleText fs)
